@@ -1,6 +1,7 @@
 """R-REGEX: string-escape and number rewriting in format_token (C04)."""
 from engine import Report
 from facts import *
+from extract import FEATURES
 from paths import *
 
 # characters that are meaningful after a backslash in some supported dialect (Lua 5.1-5.4, LuaJIT, Luau)
@@ -280,8 +281,18 @@ def rule_regex(ctx, prop):
         if not rep.anchor(ft is not None, "format_token", cfg):
             continue
         # the tokenising regex is the receiver of the Regex::replace_all call; its third argument is the replacement closure
-        ra = [(b, t) for b, t in ft.calls() if callee(t).endswith("Regex::replace_all")]
-        if not rep.anchor(len(ra) == 1, f"one Regex::replace_all call in format_token ({len(ra)})", cfg):
+        ra_all = [(b, t) for b, t in ft.calls() if callee(t).endswith("Regex::replace_all")]
+        ra = [(b, t) for b, t in ra_all if guarded_by_variant(ft, b, "TokenType", "StringLiteral")] if len(ra_all) > 1 else ra_all
+        kinds_all = prog.variants("full_moon::tokenizer::TokenType", "stylua_lib") or []
+        for b, t in ra_all:
+            if (b, t) in ra:
+                continue
+            on = [k for k in kinds_all if guarded_by_variant(ft, b, "TokenType", k)] or ["?"]
+            rep.violation(f"{ft.key} regex-rewrite-on-kind={','.join(on)}",
+                          f"format_token rewrites the text of a {'/'.join(on)} token with Regex::replace_all: only quoted string "
+                          f"literals have their escapes normalised (by the audited tokenising regex and replacement table); "
+                          f"text of any other kind is carried over as written", ft.loc(t["sp"]), cfg)
+        if not rep.anchor(len(ra) == 1, f"one Regex::replace_all call on the StringLiteral arm of format_token ({len(ra)})", cfg):
             continue
         rb, rt = ra[0]
         re_name = None
@@ -565,4 +576,24 @@ def rule_regex(ctx, prop):
                                       "a string literal token is rebuilt with a different bracket depth / quote type or a "
                                       "literal that did not come through the expected rewriting", ft.loc(s["sp"]), cfg)
             rep.floor("StringLiteral rebuild sites", n, 2, cfg)
+            # --- interpolated string segments (Luau) are copied: `{`, backtick and every escape keep their spelling
+            nv = 0
+            vnames = [x["name"] for v in adt["variants"] if v["name"] == "InterpolatedString" for x in v["fields"]]
+            for b, si_, s in ft.stmts():
+                if s["k"] == "assign" and s["rv"]["k"] == "agg" and s["rv"].get("variant") == "InterpolatedString" \
+                        and s["rv"].get("adt", "").endswith("TokenType"):
+                    nv += 1
+                    ops = dict(zip(vnames, s["rv"]["ops"]))
+                    roots = provenance(ft, ops.get("literal"), into_aggs=False) if ops.get("literal") is not None else {("?",)}
+                    okv = bool(roots) and all(r[0] == "call" and r[1].endswith("Token::token_type") or r[0] == "arg" for r in roots)
+                    rep.inst(f"{ft.key} InterpolatedString literal is the input's", {"roots": sorted(str(r[:2]) for r in roots)}, cfg, ok=okv)
+                    if not okv:
+                        via = sorted({str(r[1]).split("::")[-1] for r in roots if not (r[0] == "call" and r[1].endswith("Token::token_type"))})
+                        rep.violation(f"{ft.key} interpolated-literal-rewritten via={','.join(via)}",
+                                      f"format_token rebuilds an InterpolatedString segment from {via} instead of copying the "
+                                      f"input's literal: in a backtick string `\\{{` and the backtick escape are the only way to "
+                                      f"write those characters, so dropping or changing an escape changes the string's value",
+                                      ft.loc(s["sp"]), cfg)
+            if "luau" in FEATURES.get(cfg, ()):
+                rep.floor("InterpolatedString rebuild sites", nv, 1, cfg)
     return rep
